@@ -345,9 +345,13 @@ class SupvisorsStateModes:
         """ The event is fired on change by the remote Supvisors instance. """
         # ignore if sent by the local Supvisors instance because information may be lost in the gap
         if identifier != self.local_identifier:
-            self.instance_state_modes[identifier].update(event)
-            # export the Supvisors status because starting / stopping identifiers may have changed
-            self.export_status()
+            # a publication may be received from a Supvisors instance that is not admitted (or not yet again)
+            # its state and modes would never be reset if the handshake did not follow
+            state = self.local_state_modes.instance_states[identifier]
+            if state not in [SupvisorsInstanceStates.STOPPED, SupvisorsInstanceStates.ISOLATED]:
+                self.instance_state_modes[identifier].update(event)
+                # export the Supvisors status because starting / stopping identifiers may have changed
+                self.export_status()
 
     # Master selection
     def is_running(self, identifier: str) -> bool:
